@@ -17,12 +17,15 @@ META = {
     "rule before the repair ran 3 bodies with k = 2, C16_new_rule_respects is the same schedule under the current rule.  "
     "Tied to pydra/engine/submitter.py by running workflows of up to 10 independent or chained jobs under the controlled "
     "worker with every k from 1 to the job count and 'greedy' schedules (every dispatched body is opened at once, one future "
-    "completes per iteration) and random ones, comparing per iteration tasks / dispatches / pending futures and the maximal "
+    "completes per iteration) and random ones, always including the end-of-queue family (k in {2,3}, k+1..k+3 independent / "
+    "split / chain+independent jobs, one future completing while the other bodies execute, so that r <= k jobs remain queued with "
+    "r + running > k), comparing per iteration tasks / dispatches / pending futures and the maximal "
     "number of simultaneously open bodies with the Lean model replaying the recorded schedule.",
     "note": "Trusted: Lean kernel; hand-written model of the dispatch loop (Sched/Model.lean), poll atomic w.r.t. the environment; "
     "'executing' = lock file held between the body's start and end log lines; the pool of the controlled worker has k+1 "
-    "processes so that an overstepping dispatcher shows up as an extra open body.",
-    "rule": "case = (independent / chained / mixed jobs <= 10, k in 1..n, recorded schedule); distinct by canonical JSON; "
+    "processes so that an overstepping dispatcher shows up as an extra open body; the verdict 'open bodies <= k' is taken from the "
+    "bodies' own start/end log and is computed whatever else happened in the run; the observer subclass passes any signature through.",
+    "rule": "case = (independent / chained / mixed jobs <= 10, k in 1..n, recorded schedule; plus the end-of-queue family); distinct by canonical JSON; "
     "non-trivial = >= 3 jobs and a schedule policy other than FIFO completion",
     "assumptions": ["a poll (get_runnable_tasks) is atomic with respect to changes on disk"],
     "trusted": ["model of Submitter.expand_workflow_async dispatch written by hand (Sched/Model.lean)"],
